@@ -68,6 +68,9 @@ func (a *AArg) Go(copyWrap bool) any {
 		if copyWrap && a.Fn == "asm" && x.Kind == "l" && isContainer(x.Lit) {
 			g = []any{"vcopy", g} // a literal that becomes @ for the following steps
 		}
+		if copyWrap && a.Fn == "asm" && x.Kind == "c" && x.Fn == "quote" {
+			g = []any{"vcopy", g} // a quoted literal that becomes @ for the following steps
+		}
 		out = append(out, g)
 	}
 	return out
@@ -240,7 +243,7 @@ func genAsmTyped(r *Rng, depth int, inEach bool, want string) *AArg {
 		case 5:
 			return call(r, "not", sub("bool"))
 		case 6:
-			return call(r, "include", sub("list"), sub("num"))
+			return call(r, "include", sub("list"), sub(r.Pick([]string{"num", "any", "list"})))
 		case 7:
 			return call(r, "include", sub("str"), sub("str"))
 		}
@@ -433,7 +436,7 @@ func (c *asmCase) planGo(copyWrap bool) []any {
 	out := make([]any, 0, len(c.stmts))
 	for _, s := range c.stmts {
 		g := s.Go(copyWrap)
-		if copyWrap && s.Kind == "l" && isContainer(s.Lit) {
+		if copyWrap && ((s.Kind == "l" && isContainer(s.Lit)) || (s.Kind == "c" && s.Fn == "quote")) {
 			g = []any{"vcopy", g} // a literal that becomes @ for the following statements
 		}
 		out = append(out, g)
